@@ -170,7 +170,7 @@ func schedule(ctx context.Context, w *run.Worker, c *run.Case) {
 			s.M.Clock.Advance(d)
 			fmt.Fprintf(&e.sig, "A%d", int(d.Seconds()))
 			if r.Bool() {
-				run.Settle(20 * time.Second)
+				run.Settle(90 * time.Second)
 			}
 		case k < 68:
 			p := []string{"datasync", "sync-mid", "datasync.done", "state.write", "state.write.done"}[r.Intn(5)]
@@ -270,7 +270,7 @@ func (e *env) afterRotation() {
 	if len(e.closed) > 0 || s.State.PendingFailures() > 0 || s.DataSync.PendingFailures() > 0 {
 		return
 	}
-	if !run.Settle(20 * time.Second) {
+	if !run.Settle(90 * time.Second) {
 		e.w.Inconclusive("settle timed out after a rotation")
 		return
 	}
@@ -321,7 +321,7 @@ func (e *env) drain() bool {
 		return false
 	}
 	for i := 0; i < 400; i++ {
-		if !run.Settle(30 * time.Second) {
+		if !run.Settle(90 * time.Second) {
 			e.w.Inconclusive("settle timed out in drain: " + run.ActiveGoroutines())
 			return false
 		}
